@@ -70,6 +70,10 @@ pub struct CliCase {
     /// the input path is /dev/stdin and the bytes arrive through a pipe (a non-regular file)
     #[serde(default)]
     pub via_stdin: bool,
+    /// process environment: 0 inherited, 1 TMPDIR/HOME point nowhere, 2 empty environment,
+    /// 3 other locale / time zone, 4 TMPDIR on another file system (/dev/shm)
+    #[serde(default)]
+    pub env_variant: u8,
 }
 
 impl CliCase {
@@ -143,6 +147,15 @@ pub fn gen_cli_case(seed: u64, index: u64, strace: bool) -> CliCase {
             }
             t.into_bytes()
         }
+        InputKind::Malformed if r.chance(1, 3) => {
+            // a syntax error preceded by runs of multi-byte characters at every alignment
+            let ch = *r.pick(&["ж", "€", "😀", "é", "x"]);
+            let n = r.range(5, 60);
+            let pad = " ".repeat(r.below(8));
+            let body = ch.repeat(n);
+            let tail = *r.pick(&["</wrong>", "<!-- unclosed", "<![CDATA[ unclosed", "<b attr=></b></a>", "</a></a>"]);
+            format!("<a k=\"{}\">{}{}{}", body, body, pad, tail).into_bytes()
+        }
         InputKind::Malformed => {
             // damaged until the flat oracle confirms a fault (or plain text without element)
             let mut out = b"<a><b></a>".to_vec();
@@ -176,7 +189,7 @@ pub fn gen_cli_case(seed: u64, index: u64, strace: bool) -> CliCase {
         4 => Some(("--parser=".to_string(), "quick-xml-de".to_string())),
         _ => Some(("-p".to_string(), "serde-xml-rs".to_string())),
     };
-    let derive_vals: &[&str] = &["Debug", "", "Serialize, Deserialize, Debug", "Ünï, Clone", "a\"b", "X Y", "Serialize,Deserialize", "derive(A)", "{}", "%s %d"];
+    let derive_vals: &[&str] = &["Debug, Clone, Debug", "Serialize, Deserialize, Debug, Clone, PartialEq, Default, Debug", "Debug", "", "Serialize, Deserialize, Debug", "Ünï, Clone", "a\"b", "X Y", "Serialize,Deserialize", "derive(A)", "{}", "%s %d"];
     let derive = match r.below(5) {
         0 | 1 => None,
         2 => Some(("-d".to_string(), r.pick(derive_vals).to_string())),
@@ -216,6 +229,7 @@ pub fn gen_cli_case(seed: u64, index: u64, strace: bool) -> CliCase {
         strace: strace && !via_stdin,
         arg_order: r.below(3) as u8,
         via_stdin,
+        env_variant: if r.chance(1, 3) { r.range(1, 4) as u8 } else { 0 },
     }
 }
 
@@ -377,6 +391,21 @@ pub fn check_cli(bin: &Path, work: &Path, case: &CliCase, serial: u64, rep: &mut
     } else {
         Command::new(bin)
     };
+    match case.env_variant {
+        1 => {
+            cmd.env("TMPDIR", "/nonexistent-tmp").env("HOME", "/nonexistent-home").env("TMP", "/nonexistent-tmp");
+        }
+        2 => {
+            cmd.env_clear();
+        }
+        3 => {
+            cmd.env("LANG", "tr_TR.UTF-8").env("LC_ALL", "tr_TR.UTF-8").env("TZ", "Pacific/Kiritimati").env("COLUMNS", "20");
+        }
+        4 => {
+            cmd.env("TMPDIR", "/dev/shm");
+        }
+        _ => {}
+    }
     cmd.args(&args)
         .current_dir(&dir)
         .env_remove("RUST_LOG")
@@ -424,6 +453,9 @@ pub fn check_cli(bin: &Path, work: &Path, case: &CliCase, serial: u64, rep: &mut
     ) && !(case.output == OutputKind::SameAsInput && matches!(case.input_kind, InputKind::Missing | InputKind::Directory));
     rep.count(&format!("input {:?}", case.input_kind));
     rep.count(&format!("output {:?}", case.output));
+    if case.env_variant != 0 {
+        rep.count(&format!("environment variant {}", case.env_variant));
+    }
     if case.via_stdin {
         rep.count("input through a pipe (/dev/stdin)");
     }
